@@ -58,7 +58,7 @@ def strategy(kind):
         "procs": st.lists(st.tuples(st.sampled_from(BEHAVIOURS), st.booleans(), st.integers(0, 3)), min_size=3, max_size=3),   # behaviour, wants details, n progress
         # how each procedure is registered: a plain callable, a bound method, or register(obj) of an object with a @wamp.register-decorated method
         # (the object may be an empty container or otherwise falsy: it is still the method's self)
-        "styles": st.lists(st.sampled_from(["func", "func", "func-checked", "bound", "obj", "obj-empty", "obj-false"]), min_size=3, max_size=3),
+        "styles": st.lists(st.sampled_from(["func", "func", "func-checked", "bound", "obj", "obj-empty", "obj-false", "obj-multi"]), min_size=3, max_size=3),
         "steps": st.lists(step, min_size=1, max_size=10), "kind": st.just(kind)})
 
 
@@ -111,9 +111,24 @@ class World:
                     fut = self.tx.d.call(lambda holder=holder, k=k, opt=opt: self.sess.register(holder.plain, "com.myapp.proc%d" % k, opt))
                     txaio.add_callbacks(fut, lambda reg, k=k: self.regs.__setitem__(k, reg), None)
                 else:
+                    def keep(res, k=k):
+                        regs = [x[1] if isinstance(x, tuple) else x for x in res]
+                        mine = [x for x in regs if getattr(x, "procedure", None) == "com.myapp.proc%d" % k]
+                        self.regs[k] = mine[0] if mine else regs[0]
                     fut = self.tx.d.call(lambda holder=holder, opt=opt: self.sess.register(holder, options=opt))
-                    txaio.add_callbacks(fut, lambda res, k=k: self.regs.__setitem__(k, res[0][1] if isinstance(res[0], tuple) else res[0]), None)
+                    txaio.add_callbacks(fut, keep, None)
             msgs = self.tx.recv_raw()
+            if style == "obj-multi":
+                # the object has a second decorated method (sorted first, with decorator-level options of its own, asking for call details)
+                if len(msgs) != 2 or any(m[0] != 64 for m in msgs):
+                    raise Violation("C10|register-object|request-count", "register(obj) of an object with two decorated methods wrote %r" % (msgs,), c)
+                for m in msgs:
+                    if m[3] == "com.myapp.proc%d" % k:
+                        self.tx.send_raw([65, m[1], 9000 + k])
+                    else:
+                        self.tx.send_raw([65, m[1], 9500 + k])
+                self.reg_ids.append(9000 + k)
+                continue
             if len(msgs) != 1 or msgs[0][0] != 64:
                 raise HarnessError("REGISTER expected, got %r" % (msgs,))
             self.tx.send_raw([65, msgs[0][1], 9000 + k])
@@ -146,6 +161,14 @@ class World:
                     world.bad_self.append((k, style, brief(list(args[:2]))))
                     raise TypeError("decorated() missing 1 required positional argument: 'self'")
                 return fn(*args[1:], **kwargs)
+        if style == "obj-multi":
+            from autobahn.wamp.types import RegisterOptions
+
+            @wamp.register("com.myapp.aux%d" % k, options=RegisterOptions(details_arg="call_details", invoke="roundrobin"))
+            def aaa_first(self_, *args, **kwargs):
+                return "aux"
+            aaa_first.__name__ = "aaa_first"
+            Holder.aaa_first = aaa_first
         if style == "obj-empty":
             Holder.__len__ = lambda self: len(self.items)
         elif style == "obj-false":
